@@ -17,7 +17,7 @@ D2 == "l2/1/d2"
 N1 == "n1"
 Accts  == {"e1", "e2", "adm", "u1", "u2", "u3", "x", "opchild", "feecollector"}
 Denoms == {D1, D2, N1}
-Funded == [u1 |-> [n1 |-> 3], feecollector |-> [n1 |-> 2]]
+Funded == [u1 |-> [n1 |-> 3], feecollector |-> [n1 |-> 2], opchild |-> [n1 |-> 1]]
 Params0 == [admin |-> "adm", execs |-> <<"e1", "e2">>, maxVals |-> 3, histEntries |-> 1, hookGas |-> "ample", fw |-> << >>]
 
 NoHook == [kind |-> "none", signer |-> "", msgs |-> << >>]
@@ -65,7 +65,9 @@ HooksN(q) == { HookMsgs("e2", << DpM(q, "u2", "u1", D1, 2, "d1") >>),
                HookMsgs("u1", << DpM(q + 1, "u2", "u3", D1, 1, "d1") >>),
                HookMsgs("e2", << DpM(q + 1, "u2", "opchild", D1, 1, "d1") >>),
                HookMsgs("e2", << DpM(q + 1, "u2", "u3", D1, 1, "d1"), [kind |-> "send", to |-> "panic", denom |-> D1, amt |-> 1] >>),
-               HookMsgs("e2", << DpM(q + 1, "u2", "u3", D1, 1, "d1"), DpM(q + 1, "u2", "u3", D1, 1, "d1"), DpM(q + 2, "u1", "u3", D2, 1, "d2") >>) }
+               HookMsgs("e2", << DpM(q + 1, "u2", "u3", D1, 1, "d1"), DpM(q + 1, "u2", "u3", D1, 1, "d1"), DpM(q + 2, "u1", "u3", D2, 1, "d2") >>),
+               \* the deposit delivered by the hook carries a hook of its own (a hook inside a hook)
+               HookMsgs("e2", << [DpM(q + 1, "u2", "u1", D1, 2, "d1") EXCEPT !.kind = "deposit"] @@ [hook |-> HookMsgs("u1", << [kind |-> "send", to |-> "u3", denom |-> D1, amt |-> 1] >>)] >>) }
 Queries == {[type |-> "Query", q |-> q, denom |-> ""] : q \in {"NextL1Sequence", "NextL2Sequence", "BridgeInfo", "Params"}}
            \cup {[type |-> "Query", q |-> "BaseDenom", denom |-> d] : d \in {D1, D2, N1}}
 Faults == {"none", "mintErr", "mintPanic", "sendErr", "sendPanic"}
@@ -108,6 +110,7 @@ AuthEvents(s) ==
                    << Upd("opchild", [s.params EXCEPT !.admin = "x"]) >>,
                    << Upd("adm", [s.params EXCEPT !.admin = "x"]) >>,
                    \* messages of this module that do not check an authority themselves, named after a user / an executor: the batch is for the module account's own messages only
+                   << Send("opchild", "u3", N1, 1), Send("u1", "u3", N1, 1) >>,     \* two messages of one type: every one of them needs the authority as signer
                    << Wd("u1", "u2", D1, 1) >>,
                    << Dep("e1", s.seqL1, "u2", "u1", D1, 1, "d1", NoHook, "none") >>,
                    << >> }}
